@@ -384,8 +384,9 @@ class DocstringParser(AbstractDocstringParser):
     def _get_griffe_node(self, qname: str) -> Object | None:
         node_qname_parts = qname.split(".")
         griffe_node = self.griffe_build
-        for part in node_qname_parts:
-            if griffe_node.name == part:
+        for index, part in enumerate(node_qname_parts):
+            if index == 0 and griffe_node.name == part:
+                # The qualified name starts with the name of the loaded root package
                 continue
 
             if part in griffe_node.modules:
